@@ -183,6 +183,11 @@ def make_model(ctx, cls, dim, latlon=False):
         a["alpha"] = ctx.real("alpha0", lo=0.5, hi=1.9)
         ctx.require(ctx.And(ctx.gt(a["alpha"], 0), ctx.le(a["alpha"], 2)))
         kw["alpha"] = a["alpha"]
+    if cls == "TPLGaussian":
+        a["hurst"] = ctx.real("hurst0", lo=0.2, hi=0.8)
+        a["len_low"] = ctx.real("len_low0", lo=0.01, hi=0.3)
+        ctx.require(ctx.And(ctx.gt(a["hurst"], 0.1), ctx.lt(a["hurst"], 1), ctx.ge(a["len_low"], 0)))
+        kw.update(hurst=a["hurst"], len_low=a["len_low"])
     if dim > 1 and not latlon:
         a["anis"] = [ctx.real("anis0_%d" % i, lo=0.5, hi=2.0) for i in range(dim - 1)]
         for r in a["anis"]:
@@ -588,7 +593,10 @@ def fit_latlon(ctx, sill):
 def fit_r2(ctx, data):
     dim = 2 if data == "dir" else 1
     n = 2 * dim
-    y = [ctx.real("y%d" % i, lo=0.2 + 0.3 * i, hi=0.4 + 0.3 * i) for i in range(n)]
+    if data == "iso":
+        y = [ctx.real("y%d" % i, lo=0.2 + 0.3 * i, hi=0.4 + 0.3 * i) for i in range(n)]
+    else:       # concrete variogram values for the two directions (keeps the hypotheses linear)
+        y = [0.25, 0.5, 0.375, 0.75]
     mean_y = sum(y) / n
     ss_tot = sum((v - mean_y) * (v - mean_y) for v in y)
     ctx.require(ctx.gt(ss_tot, 0))
@@ -646,3 +654,61 @@ def fit_custom_bounds(ctx, sill, k):
         run_fit(ctx, "Gaussian", 1, {}, sill, k, check=("state", "bounds"))
     finally:
         _PRE_HOOK = None
+
+
+# --- truncated power law models: the variance depends on the length scale through var_factor ---------
+def _install_tpl_stub():
+    """the VALUES of the curve are irrelevant to the ghost optimiser; the special-function kernel of the TPL
+    correlation (np.around / exp_int on its argument) is replaced by an uninterpreted function in symbolic runs"""
+    import gstools.covmodel.tpl_models as tm
+    if getattr(tm.tplstable_cor, "_gsvc_c10", False):
+        return
+    real = tm.tplstable_cor
+
+    def tplstable_cor(r, len_scale, hurst, alpha):
+        if symrun.symbolic_active() and any(is_sym(v) or (isinstance(v, np.ndarray) and v.dtype == object)
+                                            for v in (r, len_scale, hurst, alpha)):
+            rr = np.asarray(r, dtype=object)
+            out = np.empty(rr.shape, dtype=object)
+            for i, v in enumerate(rr.ravel().tolist()):
+                out.reshape(-1)[i] = symrun.uf("tplstable_cor", v, len_scale, hurst, alpha)
+            return out if rr.ndim else out.item()
+        return real(r, len_scale, hurst, alpha)
+    tplstable_cor._gsvc_c10 = True
+    tm.tplstable_cor = tplstable_cor
+    symrun.SHIM_LOG.append("gstools.covmodel.tpl_models.tplstable_cor -> uninterpreted function in symbolic runs "
+                           "(curve values are not used by the ghost optimiser; contracts/c10.py)")
+
+
+_install_tpl_stub()
+TPL_SEL = [{}, {"var": "off"}, {"var": "fix"}, {"var": "off", "len_scale": "off"}]
+TPL_SEL_T = [{"var": "off", "nugget": "off"}, {"len_scale": "off"}, {"hurst": "off"}, {"var": "off", "len_low": "fix"}]
+
+
+def _tpl_params(sels, sills, k):
+    out = []
+    for sel in sels:
+        for sill in sills:
+            if has_slots(sel, PG + ["hurst", "len_low"], sill):
+                out.append({"cls": "TPLGaussian", "sel": _sel_name(sel), "sill": sill, "k": k, "_sel": sel})
+    return out
+
+
+SPAN.update({"hurst": (0.2, 0.8), "len_low": (0.01, 0.3)})
+
+
+@contract(P, "fit_variogram/truncated-power-law-variance-bookkeeping", params=_register(_tpl_params(TPL_SEL, ("none",), 1)),
+          functions=FN + ["covmodel/tpl_models.py:TPLCovModel.var_factor"], nsamples=2, search=20, timeout=20)
+def fit_tpl(ctx, cls, sel, sill, k):
+    """var = var_raw * var_factor(len_scale, len_low, hurst): a deselected / fixed variance must survive
+    the length-scale changes of the curve evaluations (var_save logic), fitted ones must equal popt"""
+    run_fit(ctx, cls, 1, _SEL[(cls, sel)], sill, k, check=("state",))
+
+
+@contract(P, "fit_variogram/truncated-power-law-variance-bookkeeping[more]",
+          params=_register(_tpl_params(TPL_SEL, ("given",), 1) + _tpl_params(TPL_SEL_T, ("none", "given"), 1) +
+                           _tpl_params(TPL_SEL, ("none",), 2)),
+          functions=FN + ["covmodel/tpl_models.py:TPLCovModel.var_factor"], nsamples=2, search=20, timeout=20,
+          tiers=("thorough",))
+def fit_tpl_more(ctx, cls, sel, sill, k):
+    run_fit(ctx, cls, 1, _SEL[(cls, sel)], sill, k, check=("state", "bounds"))
